@@ -191,3 +191,11 @@ def r12g(F):
 	return out
 
 RULES.append(('12.g', 'writer and disconnect path agree on dropping uncommitted inbound HTLCs and adjusting next_counterparty_htlc_id', r12g))
+
+
+def r12c(F):
+	"""every TLV read loop of the lightning crate (expansions of the TLV decode macros and hand-rolled equivalents)"""
+	import tlvloop
+	return tlvloop.check_tlv_loops(F, '12.c', lambda n: n.startswith('lightning::') or n.startswith('<lightning::') or n.startswith('<(lightning::') or n.startswith('<alloc::') or n.startswith('<core::'), floor=300, label='TLV read loops in the lightning crate')
+
+RULES.append(('12.c', 'every TLV read loop: strictly increasing types, unknown-even rejected / odd skipped, records framed, drained and trailing bytes rejected', r12c))
